@@ -1,4 +1,5 @@
 import QmiModel.Gen.TokenProg
+import QmiModel.Model.Lock
 /-!
 # C04 — `make_unique_token` is atomic enough: distinct counter values under every interleaving
 
@@ -83,6 +84,39 @@ theorem gen_prog_atomic : Gen.TokenProg.prog = atomicProg := by decide
 
 /-- OBLIGATION on the generated return expression: the token string is `prefix + _instance_id + "_" + str(nr)` -/
 theorem gen_token_shape : Gen.TokenProg.shape = tokenShape := by decide
+
+/-- decimal rendering of a natural number is injective (the counter never wraps and never loses digits) -/
+theorem decimal_injective {n m : Nat} (h : toString n = toString m) : n = m := by
+  simp only [Nat.toString_eq_repr] at h
+  have h2 : Nat.toDigits 10 n = Nat.toDigits 10 m := by
+    rw [← Nat.toList_repr, ← Nat.toList_repr, h]
+  have hn := Nat.ofDigitChars_toDigits (b := 10) (n := n) (by omega) (by omega)
+  have hm := Nat.ofDigitChars_toDigits (b := 10) (n := m) (by omega) (by omega)
+  rw [h2] at hn
+  omega
+
+/-- OBLIGATION, semantic form: the token string as generated from the `return` expression is defined for every
+counter value and is an **injective function of the counter** (same prefix, same instance identifier): token number
+`k + 65536` can never equal token number `k`.  A masked / fixed-width / wrapped rendering of the counter is emitted by
+the translator as `counterOther` and fails here. -/
+theorem gen_token_render_injective (pfx instanceId : String) (n m : Nat) :
+    (render Gen.TokenProg.shape pfx instanceId n).isSome ∧
+    (render Gen.TokenProg.shape pfx instanceId n = render Gen.TokenProg.shape pfx instanceId m → n = m) := by
+  rw [gen_token_shape]
+  simp only [render, tokenShape, List.foldl_cons, List.foldl_nil, renderPart, Option.isSome_some, true_and,
+    Option.some.injEq]
+  intro h
+  exact decimal_injective ((String.append_right_inj _).1 h)
+
+/-- the system model's `mkToken` is this rendering with the prefix `$lock_` -/
+theorem mkToken_eq_render (name nonce : String) (n : Nat) :
+    render tokenShape "$lock_" nonce n = some (QmiModel.Lock.mkToken name nonce n).tok := by
+  simp [render, tokenShape, renderPart, QmiModel.Lock.mkToken]
+
+/-- what the obligation rejects (a constant, not the source): a 16-bit rendering is not even representable as a
+function the model knows, and numerically `k + 65536` and `k` agree modulo 2^16 -/
+example : render [.pfx, .instanceId, .lit "_", .counterOther "nr & 0xffff :04x"] "$lock_" "ab" 1 = none ∧
+    (1 + 65536) % 65536 = 1 % 65536 := by decide
 
 /-- OBLIGATION on the generated identifier sources: `_instance_id` (assigned exactly once, in `__init__`) contains at
 least 48 bits from the OS entropy source — not the seedable global PRNG, a clock, a pid or anything else a client
